@@ -177,8 +177,7 @@ def cycle_problems(builder, obj, state):
     w = call(obj.dumps)
     if w[0] != "ok":
         return ["a manifest built by valid adds cannot be written: %s" % w[1]]
-    back = misc.set_compose(b["new"]())
-    back.compose.id = None
+    back = b["new"]()                                # (a new reader: nothing of the compose section is there before the load)
     r = call(back.loads, w[1])
     if r[0] != "ok":
         return ["the written manifest cannot be read back: %s" % r[1]]
@@ -194,10 +193,16 @@ def cycle_problems(builder, obj, state):
     if w2 != w:
         problems.append("second write is not byte-identical")
     # a reader object that has loaded ANOTHER (labelled, final) manifest before must read the same
+    # (that other manifest has a label and entries of its own, under a variant of its own and under the same ones)
     labelled = json.loads(w[1])
     labelled["payload"]["compose"].update({"label": "RC-1.0", "final": True})
+    first = misc.set_compose(b["new"](), dict(misc.COMPOSE, label="RC-1.0", final=True))
+    for op in (b["valid"]()[0], b["valid"]()[-1]):
+        call(first.add, *copy.deepcopy(op[1:]))
+        call(first.add, "Zother", *copy.deepcopy(op[2:]))
     used = b["new"]()
     call(used.loads, json.dumps(labelled))
+    call(used.loads, first.dumps())
     r3 = call(used.loads, w[1])
     if r3[0] != "ok" or call(used.dumps) != w:
         problems.append("a reader that loaded a labelled manifest before does not reproduce the file (%s)" % (r3[1] if r3[0] != "ok" else "dump differs"))
